@@ -136,6 +136,11 @@ def make_cases(ctx, first):
             w.add(x)
         w.probe()
         case = dict(id=first + len(cases), conf=conf, steps=w.steps, contents=sorted(w.contents), variant=variant)
+        if rng.random() < 0.25:
+            # directories that an interrupted initialisation (or another tool) left behind: an oci-layout file that is empty,
+            # truncated or of another version, no index.json - the first push must turn them into valid layouts
+            case["seed"] = [dict(path=r_ + "/oci-layout", b64=b64(rng.choice([b"", b'{"imageLayoutVer', b'{"imageLayoutVersion":"0.9.0"}', b"{}"])))
+                            for r_ in rng.sample(REPOS, rng.randrange(1, len(REPOS) + 1))]
         if getattr(w, "memdir", False):
             # the memory store over a directory is outside the model
             seen = False
